@@ -192,6 +192,8 @@ fn words_for(f: &Fault) -> Vec<String> {
         w.push(k.clone());
         w.push(format!("{k}{}", sk[(hash_of(k) as usize + i) % sk.len()]));
         w.push(format!("{k}e"));
+        w.push(format!("{k}er"));
+        w.push(format!("{k}i"));
     }
     for x in ["smile", ":er", "abe", "a", "onnogulo", "cool."] {
         w.push(x.to_string());
@@ -353,7 +355,7 @@ fn collect_stores(n_hist: usize, seed: u64) -> Vec<Vec<u8>> {
     out.into_iter().collect()
 }
 
-fn malformed_corpus() -> Vec<Vec<u8>> {
+pub fn malformed_corpus() -> Vec<Vec<u8>> {
     let mut docs: Vec<Vec<u8>> = vec![];
     for d in [
         "", " ", "\n", "null", "true", "0", "\"x\"", "[]", "[1,2]", "{\"a\":1}", "{\"a\":null}", "{\"a\":{\"b\":\"c\"}}", "{\"a\":[\"b\"]}", "{\"a\":\"b\",}", "{\"a\":\"b\"}}", "{a:\"b\"}",
@@ -797,7 +799,10 @@ pub fn run(run: &Run) {
         &items,
         |_| (),
         |(i, f), st, _| {
-            let with_data = i % 16 == 0 || matches!(f, Fault::Dir(_));
+            // loadable content (an object of strings, however odd) is judged with the bundled data loaded: what the engine
+            // makes of an empty or strange value only shows when the suffix and dictionary tables are there
+            let loadable = matches!(f, Fault::Selection(b) | Fault::Autocorrect(b) if b.len() < 400 && is_object_of_strings(b));
+            let with_data = i % 16 == 0 || matches!(f, Fault::Dir(_)) || loadable;
             check_fault(f, with_data, st)?;
             if let Fault::Autocorrect(b) = f {
                 check_late(b, with_data, i % 2 == 0, st)?;
